@@ -118,10 +118,20 @@ static inline void vp_blocked(int t, int kind, char* a, char* b) {
 static inline unsigned vp_blockcount(void) { return vp_blockcount_[vp_cur]; }
 static inline unsigned vp_ublockcount(void) { return vp_ublockcount_[vp_cur]; }
 static inline unsigned vp_cvwaits(void) { return vp_cvwaits_[vp_cur]; }
-static inline void vp_plain_block(void) {
-  /* sequential code (setup, final, indirect-call targets, sequential harnesses) reached a blocking primitive
-     whose condition is false: nobody else can run, so this is a self-deadlock */
-  VP_CHECK(0, "blocking primitive not enabled in sequential/atomic context (self-deadlock)");
+static inline void vp_plain_block(int kind, char* a) {
+  /* sequential code (setup, final, sequential harnesses) or an atomic section of a thread (indirect-call target, plumbing run atomically)
+     reached a blocking primitive whose condition is false.
+       - setup / final / sequential harness: nobody else can run -> self-deadlock;
+       - atomic section, lock held by the calling thread itself -> self-deadlock (e.g. a destructor that runs under the container's lock
+         and re-enters the container);
+       - atomic section, lock held by ANOTHER thread: the real thread would simply wait.  The atomic section cannot be suspended in this
+         encoding, so the schedule is dropped (under-approximation, stated with the "indirect calls execute atomically" assumption). */
+  int self = 1;
+  if (vp_cur != 0) {
+    if (kind == VP_B_MUTEX || kind == VP_B_TIMED) self = (*(int*)a == vp_cur + 1);
+    else if (kind == VP_B_RD || kind == VP_B_WR) self = (((int*)a)[0] == vp_cur + 1) || ((((int*)a)[1] >> vp_cur) & 1);
+  }
+  if (self) VP_CHECK(0, "blocking primitive not enabled in sequential/atomic context (self-deadlock)");
   __CPROVER_assume(0);
 }
 static inline uint8_t vp_nondet_bool(void) { return vp_ndh_uchar() & 1; }
